@@ -39,6 +39,10 @@ func genLines(rng *common.Rng, login bool) ([]byte, []expect) {
 				tag + " LOGIN onlyuser",
 				tag + " LOGIN a b c",
 				tag + " LOGIN \"a b",
+				tag + " LOGIN \"a\\",
+				tag + " LOGIN \"a\\b\" c",
+				tag + " CREATE \"x\x1f",
+				tag + " NOOP\x1f",
 				tag + " FETCH x ALL",
 				tag + " FETCH 0 ALL",
 				tag + " FETCH 1 (BODY[",
